@@ -63,6 +63,9 @@ func genForm(t *rapid.T, kind string, v6 bool, relaxed bool) FormSpec {
 		f.OuterTOS = uint8(oneOf(t, "outer_tos", 0, 0xc0))
 		f.OuterID = uint16(rapid.IntRange(0, 65535).Draw(t, "outer_id"))
 		f.OuterDF = rapid.Bool().Draw(t, "outer_df")
+	} else {
+		// IPv6: the quoted traffic class may have been re-marked (DSCP classes, ECN bits)
+		f.QTOS = oneOf(t, "q_tclass", 0, 0, 0x02, 0x28, 0xb8, 0xff)
 	}
 	f.QTTL = oneOf(t, "q_ttl", 0, 1, 2)
 	if kind == "udp" {
